@@ -31,6 +31,7 @@ ASSUMPTIONS = ['the prerequisite automaton in this file (next_steps) encodes '
                'labels of generated trees contain no + and do not start '
                'with @']
 WATCHDOG = {'quick': 600, 'thorough': 3600}
+LONG_SENTENCES = 3      # floor for the stratum the runner adds (gen.maybe_long)
 MIN = {'quick': {'distinct': 2500,
                  'hooks': dict([('transform.' + n, 300) for n in STRUCTURAL]),
                  'strata': {'sequence length>=4': 800,
@@ -281,6 +282,7 @@ def make_tree(rng):
                       edges=['HD', 'NK', 'SB', 'OA', '--', '--'])
     n = rng.choice([1, 2, 3, 4, 5, 7, 10]) if rng.random() < 0.7 \
         else rng.randint(1, 25)
+    n = gen.maybe_long(rng, n, 0.003)
     spec = gen.tree(rng, n, pools, max_arity=rng.choice([2, 3, 4, 6]),
                     p_unary=rng.choice([0, 0.15, 0.35]),
                     moves=rng.choice([0, 0, 1, 2, 4]),
